@@ -28,29 +28,16 @@ def r1_kind_equality(ctx, sym, mod):
                    "shallow_match_X / deep_find_match_X handler names a real ast class or is called explicitly")
     fn = mod.func(CLS + 'shallow_match_main')
     ctx.analysed_function(mod, fn)
-    init = [n for n in body_walk(fn) if isinstance(n, ast.Assign) and norm(n.targets[0]) == 'is_match']
-    ctx.require(init, "shallow_match_main has no is_match")
-    first = norm(init[0].value)
-    ok = 'type(ins).__name__ == type(std).__name__' in first.replace('\n', '') and \
-        'len(ins_field_list) == len(std_field_list)' in first and 'meta_matched' in first and \
-        isinstance(init[0].value, ast.BoolOp) and isinstance(init[0].value.op, ast.And)
-    ctx.check(ok, 'R1', 'shallow_match_main:kind-conjunct', mod, init[0],
-              "the initial is_match does not require the same node class, field count and meta match",
-              "the pattern `x + 1` matches the student code `x - 1` (BinOp vs BinOp is fine, but e.g. a Compare node "
-              "would match a BoolOp with the same number of fields)")
-    # mapping only under is_match
-    maps = [c for c in calls(fn) if call_name(c) == 'AstMap']
-    ok = len(maps) == 1 and any(isinstance(a, ast.If) and norm(a.test) == 'is_match' for a in ancestors(maps[0]))
-    ctx.check(ok, 'R1', 'shallow_match_main:mapping-under-is_match', mod, maps[0] if maps else fn,
-              "shallow_match_main builds its mapping outside `if is_match:`", "every pair of nodes matches")
-    # every assignment to is_match inside the loop is a conjunction-preserving update: reached only under is_match
-    loop = [n for n in body_walk(fn) if isinstance(n, ast.For)]
-    ctx.require(loop, "shallow_match_main has no field loop")
-    brk = [n for n in loop[0].body if isinstance(n, ast.If) and norm(n.test) == 'not is_match'
-           and isinstance(n.body[0], ast.Break)]
-    ctx.check(bool(brk) and loop[0].body.index(brk[0]) == 0, 'R1', 'shallow_match_main:sticky-false', mod, loop[0],
-              "a false is_match can be overwritten by a later field (the loop does not stop at the first mismatch)",
-              "a pattern whose first field differs but whose last field agrees matches")
+    from .c08 import shallow_match_table
+    table = list(shallow_match_table(ctx, sym))
+    for tag, desc, got, want in table:
+        if tag not in ('kind', 'meta', 'structure'):
+            continue
+        ctx.check(got is want, 'R1', 'shallow_match_main[%s]:%s' % (tag, desc), mod, fn,
+                  "%s: %s, expected %s" % (desc, 'a mapping' if got is True else ('no mapping' if got is False else got),
+                                           'a mapping' if want else 'no mapping'),
+                  "a Compare pattern matches a node of another kind with the same number of fields",
+                  construct='shallow_match_main')
     # self-built maps in other handlers
     for name in ('shallow_match_Module', 'shallow_match_Pass', 'shallow_match_Expr'):
         f = mod.func(CLS + name)
@@ -101,45 +88,20 @@ def r2_content_equality(ctx, sym, mod):
                    "the None-shortcut for absent optional children does not skip Constant.value, is_primitive covers "
                    "every value type a Constant can hold, and callers pass only the four reasoned ignores")
     fn = mod.func(CLS + 'shallow_match_main')
-    loop = [n for n in body_walk(fn) if isinstance(n, ast.For)][0]
-    # typed comparison
-    sites = [(n, st) for n in ast.walk(fn) if isinstance(n, ast.If) and isinstance(n.test, ast.Call)
-             and call_name(n.test) == 'is_primitive' for st in n.body
-             if isinstance(st, ast.Assign) and norm(st.targets[0]) == 'is_match']
-    ctx.require(sites, "primitive comparison not found")
-    for guard, st in sites:
-        v = classify_typed_equality(st.value, mod, sym)
-        if v is None:
-            raise AnalysisError("C10 R2: comparison %s outside the recognised idioms" % norm(st.value))
-        ctx.check(v, 'R2', 'shallow_match_main:typed-compare', mod, st,
-                  "primitive content is compared with a bare ==: 1, True and 1.0 are identified",
-                  "the pattern `x = 1` matches `x = True`")
-    # the None shortcut
-    shortcuts = [n for n in loop[0].body if False] if False else \
-        [n for n in loop.body if isinstance(n, ast.If) and 'ins_value is None' in norm(n.test)
-         and isinstance(n.body[-1], ast.Continue)]
-    ctx.require(len(shortcuts) == 1, "None shortcut not found in shallow_match_main")
-    t = norm(shortcuts[0].test)
-    ok = t != 'ins_value is None' and 'Constant' in t and ("'value'" in t or '"value"' in t)
-    ctx.check(ok, 'R2', 'shallow_match_main:none-shortcut', mod, shortcuts[0],
-              "`if ins_value is None: continue` also skips Constant.value, so the literal None in a pattern is never "
-              "compared", "find_matches('None') matches `x = 5`; `x = None` matches any constant assignment")
-    # is_primitive covers the Constant value types
-    ip = mod.func('is_primitive')
-    ctx.analysed_function(mod, ip)
-    p = ip.args.args[0].arg
-    for rep, label in ((1, 'int'), (1.5, 'float'), (1j, 'complex'), ('s', 'str'), (b'b', 'bytes'), (True, 'bool'),
-                       (None, 'None'), (Ellipsis, 'Ellipsis')):
-        fd = FD()
-        fd.calls['isinstance'] = lambda o, t: isinstance(o, t)
-        fd.resolver = lambda name: {'Ellipsis': Ellipsis, 'complex': complex, 'bytes': bytes}[name]
-        try:
-            got = fd.call_function(ip, [rep])
-        except (Raised, Inconclusive) as e:
-            raise AnalysisError("C10 R2: is_primitive outside the decidable fragment: %s" % e)
-        ctx.check(got is True, 'R2', 'is_primitive(%s)' % label, mod, ip,
-                  "a %s literal is not primitive content, so shallow_match_main never compares it" % label,
-                  "a pattern containing the %s literal %r matches every literal" % (label, rep))
+    from .c08 import shallow_match_table
+    n_lit = 0
+    for tag, desc, got, want in shallow_match_table(ctx, sym):
+        if tag not in ('literal', 'content', 'optional', 'ignores'):
+            continue
+        n_lit += 1
+        key = {'literal': 'shallow_match_main:typed-compare:', 'content': 'shallow_match_main:content:',
+               'optional': 'shallow_match_main:none-shortcut:', 'ignores': 'shallow_match_main:ignores:'}[tag] + desc
+        ctx.check(got is want, 'R2', key, mod, fn,
+                  "%s: %s, expected %s" % (desc, 'a mapping' if got is True else ('no mapping' if got is False else got),
+                                           'a mapping' if want else 'no mapping'),
+                  "the pattern `x = 1` matches `x = True`; find_matches('None') matches `x = 5`; a pattern containing "
+                  "a bytes/complex literal matches every literal", construct='shallow_match_main')
+    ctx.floor('R2', 'content pairs', n_lit, 150)
     # ignores passed by callers
     n = 0
     for c in ast.walk(mod.tree):
